@@ -3,7 +3,7 @@
 // This source code is licensed under the MIT license found in the
 // LICENSE file in the root directory of this source tree.
 
-use alloc::vec::Vec;
+use alloc::{string::ToString, vec::Vec};
 
 use crypto::ElementHasher;
 use math::FieldElement;
@@ -141,14 +141,30 @@ impl OodFrame {
             return Err(DeserializationError::UnconsumedBytes);
         }
 
-        // if there is a Lagrange kernel, we treat its associated entries separately above
-        let aux_trace_width = aux_trace_width - (lagrange_kernel_frame.is_some() as usize);
+        // if there is a Lagrange kernel, we treat its associated entries separately above; the frame
+        // is read from the proof, so a Lagrange kernel frame for a trace without auxiliary columns
+        // is an error (not an arithmetic underflow)
+        let aux_trace_width = aux_trace_width
+            .checked_sub(lagrange_kernel_frame.is_some() as usize)
+            .ok_or_else(|| {
+                DeserializationError::InvalidValue(
+                    "Lagrange kernel frame provided for a trace without auxiliary columns"
+                        .to_string(),
+                )
+            })?;
 
         // parse main and auxiliary trace evaluation frames. This does the reverse operation done in
         // `set_trace_states()`.
         let (current_row, next_row) = {
             let mut reader = SliceReader::new(&self.trace_states);
+            // there are 2 rows per column: current and next (see `set_trace_states()`); any other
+            // frame size would leave the rows built below shorter or longer than the trace width
             let frame_size = reader.read_u8()? as usize;
+            if frame_size != 2 {
+                return Err(DeserializationError::InvalidValue(format!(
+                    "trace evaluation frame must consist of 2 rows, but {frame_size} were specified"
+                )));
+            }
             let trace = reader.read_many((main_trace_width + aux_trace_width) * frame_size)?;
 
             if reader.has_more_bytes() {
